@@ -1300,10 +1300,9 @@ Stylesheet::findTemplate(
 
                             if(XPath::eMatchScoreNone != score)
                             {
-                                const double priorityVal = rule->getPriority();
-                                const double priorityOfRule 
-                                              = (matchScoreNoneValue != priorityVal) 
-                                              ? priorityVal : XPath::getMatchScoreValue(score);
+                                // The explicit priority of the rule, or the default
+                                // priority of this alternative of its pattern...
+                                const double priorityOfRule = matchPat->getPriorityOrDefault();
 
                                 matchPatPriority = priorityOfRule;
                                 const double priorityOfBestMatched =
